@@ -218,7 +218,7 @@ Proof. vm_compute. reflexivity. Qed.
    after LF and keep it, as io.StringIO and open files give them; each is rstrip()ped, then comment-
    stripped -- and list(parse_file(<a file containing src>)) -- universal newlines -- all return the
    program.  (A stream splits at LF only, so a comment closed by a bare CR, VT, FF ... would run on
-   to the next LF there; parse_file alone also admits comments closed by a bare CR: file_roundtrip.) *)
+   to the next LF there; parse_file alone also allows comments closed by a bare CR: file_roundtrip.) *)
 Theorem entry_points_agree : forall p gs,
   wf_programb p = true -> src_programb p = true -> slayout_okb None gs (flat_program p) = true ->
   stream_gaps_okb gs = true ->
